@@ -5,6 +5,8 @@ from .. import conds
 from .common import *
 from . import c02, c03
 
+CRATES = (EY, IM,)
+
 META = {
     "explanation": (
         "Safe Rust guarantees exactly-once drop and forbids use-after-drop; a leak needs forget/ManuallyDrop/into_raw/leak or a reference cycle. The "
